@@ -16,7 +16,7 @@ package fifo
 // C12: modifiers run in the order they were added; the calls made are always a prefix of the list; without error
 // aggregation the first error is returned as it is and nothing after it runs; with aggregation all of them run.
 //@ func (*Group).ModifyRequest
-//@   serves C12
+//@   serves C12 C13
 //@   requires reqOK(g) && req != nil
 //@   modifies nReq, reqSeq, lastReqErr, http.Request.*, url.URL.*, martian.Session.hijacked, martian.Context.skipRoundTrip, martian.Context.skipLogging, martian.Context.apiRequest
 //@   modifies g.reqmu.rheld, sync.RWMutex.rheld
@@ -32,7 +32,7 @@ package fifo
 //@   loop 0 invariant !g.aggregateErrors ==> len(merr.errs) == 0
 
 //@ func (*Group).ModifyResponse
-//@   serves C12
+//@   serves C12 C13
 //@   requires resOK(g) && res != nil
 //@   modifies nRes, resSeq, lastResErr, http.Response.*, martian.Session.hijacked, martian.Context.skipRoundTrip, martian.Context.skipLogging, martian.Context.apiRequest
 //@   modifies g.resmu.rheld, sync.RWMutex.rheld
@@ -127,12 +127,20 @@ package fifo
 //@   requires g != nil
 //@   modifies g.aggregateErrors
 //@   ensures g.aggregateErrors == aggerr
+//@ ghost var gjResult *parse.Result
 //@ func groupFromJSON
 //@   serves C12
 //@   at entry 0 before assert[configuration-keys-are-the-documented-ones] jsonkey(groupJSON.Modifiers) == "modifiers" && jsonkey(groupJSON.Scope) == "scope" && jsonkey(groupJSON.AggregateErrors) == "aggregateErrors"
 //@   modifies fjErr, gjWantReq, gjWantRes, gjAddReq, gjAddRes
 //@   noframe
 //@   at entry 0 before set fjErr = false
+// every successful result is the one NewResult made for the group under the scope of the message (also for a group
+// of one: its own scope and error policy still apply)
+//@   modifies gjResult
+//@   at entry 0 before set gjResult = nil
+//@   at call 0 of NewResult before assert[the-group-is-offered-under-the-scope-of-its-message] arg0 == iface(g) && arg1 == msg.Scope
+//@   at call 0 of NewResult after set gjResult = result0
+//@   ensures[a-parsed-group-is-always-wrapped-under-its-own-scope] result1 == nil ==> result0 == gjResult
 //@   at call 0 of RequestModifier after set gjWantReq = gjWantReq + ite(result != nil, 1, 0)
 //@   at call 0 of ResponseModifier after set gjWantRes = gjWantRes + ite(result != nil, 1, 0)
 //@   at call 0 of AddRequestModifier before set gjAddReq = gjAddReq + 1
